@@ -2371,6 +2371,7 @@ package apd
 //@   allocates
 //@   ensures ret == nil ==> rep(z)
 //@ func (*BigInt).GobDecode
+//@   bridge-also math/big.(*Int).Sign, math/big.(*Int).SetUint64
 //@   layer bigint
 //@   props C16 C04
 //@   requires writable(z) && rep(z)
